@@ -4,6 +4,7 @@ import (
 	"fmt"
 	"go/constant"
 	"go/token"
+	"go/types"
 	"regexp"
 	"strings"
 
@@ -13,7 +14,7 @@ import (
 func init() {
 	register(&Prop{
 		ID: "C07",
-		Decided: "(1) in processAggregationResults the clauses run in relational order on every path: DISTINCT, HAVING, strip of hidden HAVING columns, ORDER BY, LIMIT, delivery; (2) LIMIT keeps a prefix results[:Limit] and only when len>Limit; (3) every hidden-column family the parser creates (__having_N__, __winagg_N__) has a strip site with a matching prefix in the stream package; (4) compareOrderValues returns -1/0/+1 exactly for a<b / a=b / a>b on numbers (NaN unordered => 0), times and strings; Sorter.less uses c<0 for ASC and c>0 for DESC and continues to the next key on ties.",
+		Decided: "(1) in processAggregationResults the clauses run in relational order on every path: DISTINCT, HAVING, strip of hidden HAVING columns, ORDER BY, LIMIT, delivery; (2) LIMIT keeps a prefix results[:Limit] and only when len>Limit; (3) every hidden-column family the parser creates (__having_N__, __winagg_N__) has a strip site with a matching prefix in the stream package; (3b) a HAVING aggregate call is bound only to the alias of that very call text, to the call text itself, or to a freshly registered hidden aggregate; (4) compareOrderValues returns -1/0/+1 exactly for a<b / a=b / a>b on numbers (NaN unordered => 0), times and strings; Sorter.less uses c<0 for ASC and c>0 for DESC and continues to the next key on ties.",
 		NotDecided: "the arithmetic of post-aggregation expressions and the classification of SELECT items, HAVING truth values, DISTINCT's JSON-based equality, aggregate values.",
 		Run: runC07,
 	})
@@ -158,6 +159,7 @@ func runC07(a *A) {
 		}
 	})
 	a.Rule("ordtab/comparator", 4, func() { a.ruleOrderComparator() })
+	a.Rule("whomay/having-binding", 3, func() { a.ruleHavingBinding() })
 }
 
 func (a *A) ruleOrderComparator() {
@@ -412,4 +414,57 @@ func (a *A) placeholderConfined(fam string, pos token.Pos) {
 		return
 	}
 	a.Check(okAll, construct, pos, "WHERE placeholders are written only into a private row that is used solely as the predicate's argument (never projected)", "a WHERE analytic placeholder can reach a projected row: "+why)
+}
+
+// ruleHavingBinding: in extractHavingAggregates each aggregate call of the HAVING text is replaced by
+// one of exactly three things: the SELECT alias registered for that very call text, the call text
+// itself (selected without alias), or a freshly registered hidden aggregate __having_N__. Anything
+// else (a "similar" aggregate found by some other criterion) binds the predicate to another value.
+func (a *A) ruleHavingBinding() {
+	fn := a.Func("rsql", "extractHavingAggregates")
+	n := 0
+	allInstrs(fn, func(in ssa.Instruction) {
+		st, ok := in.(*ssa.Store)
+		if !ok || !isStringType(st.Val.Type()) {
+			return
+		}
+		ia, ok := st.Addr.(*ssa.IndexAddr)
+		if !ok {
+			return
+		}
+		if _, isMake := ia.X.(*ssa.MakeSlice); !isMake {
+			return
+		}
+		n++
+		for _, leaf := range phiLeaves(st.Val) {
+			t := TermOf(leaf, nil)
+			s := t.String()
+			ok := false
+			switch {
+			case t.Kind == "index" && t.Base.Kind == "param" && isMapOfString(t.Base.Typ):
+				ok = true // selectAlias[call text]
+			case t.Kind == "index" && t.Base.Kind != "param":
+				ok = true // the call text itself (element of the calls slice)
+			case t.Kind == "call" && t.Name == "fmt.Sprintf":
+				if c, isCall := leaf.(*ssa.Call); isCall {
+					if k, isK := c.Call.Args[0].(*ssa.Const); isK && k.Value != nil && strings.HasPrefix(constant.StringVal(k.Value), "__having_") {
+						ok = true
+					}
+				}
+			}
+			a.Check(ok, fname(fn)+"#having-binding", st.Pos(), "a HAVING aggregate is replaced by its own alias, its own call text or a fresh hidden aggregate ("+s+")",
+				"a HAVING aggregate call is replaced by "+s+", which is neither the alias of that very call, the call text, nor a fresh hidden aggregate: the predicate would be evaluated on another aggregate's value")
+		}
+	})
+	if n == 0 {
+		a.Und(fname(fn)+"#having-binding", fn.Pos(), "no replacement table found in extractHavingAggregates")
+	}
+}
+
+func isMapOfString(t types.Type) bool {
+	if t == nil {
+		return false
+	}
+	m, ok := t.Underlying().(*types.Map)
+	return ok && isStringType(m.Elem())
 }
